@@ -759,6 +759,8 @@ func init() {
 			}
 			// the example of DESIGN §7-19: bars in 12/8, note expected at tick 6000
 			emit(Case{Op: "seq.export q=960 ti=- co=- tn=none b=12/8:- b=0/0:0.2.4.903C40", Tags: []string{"design-7-19"}, NonTrivial: true})
+			// the sample song of lean/Props/C20.lean
+			emit(Case{Op: "seq.export q=480 ti=41 co=- tn=none b=12/8:0.2.4.903C40;3.47.1.B00764 b=12/8:- b=3/4:0.23.1.913E01", Tags: []string{"lean-sample"}, NonTrivial: true})
 			n := 1500
 			if tier == "thorough" {
 				n = 60000
@@ -850,6 +852,7 @@ func runC20(c Case, m *Model) (v Verdict) {
 	mf := fields(m.Ask(c.Op))
 	// implementation: a fresh song per export (both mutate the bars they share)
 	impl := [2]string{}
+	var implStarts [2][]string
 	for i := 0; i < 2; i++ {
 		i := i
 		if p := try(func() {
@@ -861,11 +864,40 @@ func runC20(c Case, m *Model) (v Verdict) {
 				sm = so.ToSMF1()
 			}
 			impl[i] = showSMF(&sm)
+			for _, b := range so.Bars() {
+				implStarts[i] = append(implStarts[i], strconv.FormatInt(b.AbsTicks, 10))
+			}
 		}); p != "" {
 			impl[i] = "panic"
 		}
 	}
 	x := expectSeq(s)
+	// bar starts (Bar.AbsTicks after an export): every bar starts where the previous one ends
+	for i := 0; i < 2; i++ {
+		if impl[i] == "panic" {
+			continue
+		}
+		got := strings.Join(implStarts[i], ",")
+		if got == "" {
+			got = "-"
+		}
+		if mf["st"] != got {
+			v.Mismatch = append(v.Mismatch, "bar starts differ: model "+short(mf["st"])+" impl "+short(got))
+		}
+		if x.inDomain {
+			want := make([]string, len(x.starts))
+			for k, st := range x.starts {
+				want[k] = strconv.FormatUint(st, 10)
+			}
+			w := strings.Join(want, ",")
+			if w == "" {
+				w = "-"
+			}
+			if got != w {
+				v.Oracle = append(v.Oracle, "bar starts "+short(got)+", expected "+short(w))
+			}
+		}
+	}
 	names := [2]string{"ToSMF0", "ToSMF1"}
 	var files [2]seqFile
 	for i := 0; i < 2; i++ {
